@@ -217,6 +217,10 @@ def run(ctx):
             e = tr["ev"][0]
             ctx.violation(v[2], {"file": "".join(chr(c) for c in e["cps"])}, expected="the parser specification's verdict",
                           actual={"accepted": e["ok"], "sequence": "".join(chr(c) for c in e["seq"])})
+    from .. import orderswap
+    items = [{"obj": n_, "seq": t_, "q": "__parsefile__"} for n_, t_ in enumerate(
+        [">h\nKEKE\nGS*\n", "KEKE GS 10\n", ">h\nKE\n>h2\nGS\n", "KE*GS\n", "KE**\n", "KE-GS\n", "KEXGS\n", "KE\tGS\n", ">only a header\n", "", "ke\n", "KE\n*\n", "K E\n1 2\n", "KE\n\n\nGS\n", "KE;GS\n"])]
+    orderswap.env_differential(ctx, items, "accepted-invalid-file", "c14env")
     ctx.sample({"trace": {"file": trs[0]["contentrepr"], "accepted": trs[0]["ev"][0]["ok"]}})
     ctx.assumptions += ["whitespace at either end of a line belongs to the line break (the parser strips it); only interior tabs etc. are foreign characters",
                         "a header after sequence lines counts as the (single) header; empty / header-only files are not asserted at the object level",
